@@ -245,6 +245,30 @@ def make_on_name(names, done=None):
     return on_name
 
 
+#: extensions of the first ClientHello that _serverGetClientHello overwrites with those of the second before comparing
+HRR_EDITED = (ExtensionType.key_share, ExtensionType.cookie, ExtensionType.client_hello_padding,
+              ExtensionType.pre_shared_key, ExtensionType.early_data)
+
+
+def _hello_equal_facts(ex, a, b, st):
+    """clientHello1 (edited in place) == clientHello: the serialisations agree, hence every field and every extension
+    that was NOT edited is the same object-by-value in both messages"""
+    ta, tb = T(a), T(b)
+    fs = [attr_t(f, ta) == attr_t(f, tb) for f in ('client_version', 'random', 'session_id', 'cipher_suites',
+                                                   'compression_methods')]
+    for name in dir(ExtensionType):
+        v = getattr(ExtensionType, name)
+        if name.startswith('_') or not isinstance(v, int) or v in HRR_EDITED:
+            continue
+        k = v_int(z3.IntVal(v))
+        fs.append(GETEXT(attr_t('getExtension', ta), k) == GETEXT(attr_t('getExtension', tb), k))
+    # pre_shared_key is overwritten only when both hellos carry one (`if new_ext and old_ext`)
+    k = v_int(z3.IntVal(ExtensionType.pre_shared_key))
+    old, new = GETEXT(attr_t('getExtension', ta), k), GETEXT(attr_t('getExtension', tb), k)
+    fs.append(z3.Implies(z3.Not(z3.And(old != v_none, new != v_none)), old == new))
+    return z3.And(fs)
+
+
 # ---- non-vacuity switch: M2S_FLIP=<substring|*> negates the goal of every matching obligation after the run;
 # each flipped obligation must then be refuted (its path condition is satisfiable and the goal is not void)
 
@@ -262,6 +286,10 @@ def m2s(name, prop, qual, spec, check, setup=None, doc='', opts=None, keep=None)
             for ob in api.ex.obligations:
                 if ob.kind == 'm2' and (pat == '*' or pat in ob.name):
                     ob.goal = z3.Not(ob.goal)
+    if qual == TC + '_serverGetClientHello':
+        # the first ClientHello is edited in place (through its extension objects) before `clientHello1 != clientHello`:
+        # that comparison must not equate the two message terms
+        spec.unknown_compare = {'clientHello1': _hello_equal_facts}
     return m2xtask(name, prop, qual, spec, check=check2, setup=setup, doc=doc, opts=opts)
 
 
@@ -707,8 +735,95 @@ def is_ext_value(t):
     return False
 
 
+def _none_fields():
+    """{(extension type, field name)}: fields of the extension classes that are None after parsing an EMPTY extension body
+    (read off the real classes of this tree: each class is instantiated and fed an empty parser)"""
+    import inspect
+    from tlslite import extensions as E
+    from tlslite.utils.codec import Parser
+    res = set()
+    for _, cls in inspect.getmembers(E, inspect.isclass):
+        if not issubclass(cls, E.TLSExtension) or cls is E.TLSExtension:
+            continue
+        try:
+            o = cls()
+            o.parse(Parser(bytearray(0)))
+        except Exception:
+            continue
+        names = [k for k, v in vars(o).items() if v is None and not k.startswith('_')]
+        if getattr(o, '_internal_value', 0) is None:
+            names.append(getattr(o, '_field_name', None) or getattr(o, '_fieldName', None))
+            for k in dir(cls):
+                if isinstance(getattr(cls, k, None), property):
+                    continue
+            # CustomNameExtension exposes _internal_value under a per-class public name
+            for k in dir(o):
+                if k.startswith('_') or k in ('extData', 'extType', 'encExt', 'serverType'):
+                    continue
+                try:
+                    if getattr(o, k) is None and not callable(getattr(cls, k, None)):
+                        names.append(k)
+                except Exception:
+                    pass
+        for n in names:
+            if n:
+                res.add((int(o.extType), n))
+    return res
+
+
+NONE_FIELDS = _none_fields()
+_PARENTS = {}
+
+
+def _parent_of(fr, node):
+    key = id(fr.fs.node)
+    if key not in _PARENTS:
+        m = {}
+        for p_ in ast.walk(fr.fs.node):
+            for c in ast.iter_child_nodes(p_):
+                m[id(c)] = p_
+        _PARENTS[key] = m
+    return _PARENTS[key].get(id(node))
+
+
+def _needs_a_list(fr, node):
+    """is the value of this expression iterated over, searched with `in`, subscripted or measured with len()?"""
+    p_ = _parent_of(fr, node)
+    if isinstance(p_, (ast.For, ast.comprehension)) and p_.iter is node:
+        return 'iterated'
+    if isinstance(p_, ast.Compare) and node in p_.comparators and any(isinstance(o, (ast.In, ast.NotIn)) for o in p_.ops):
+        return 'searched'
+    if isinstance(p_, ast.Subscript) and p_.value is node:
+        return 'subscripted'
+    if isinstance(p_, ast.Call) and node in p_.args and isinstance(p_.func, ast.Name) and p_.func.id in ('len', 'iter', 'list', 'set', 'sorted', 'min', 'max', 'chain'):
+        return 'passed to %s()' % p_.func.id
+    return None
+
+
+def _ext_types_of(t):
+    """extension type constants of a getExtension value term (through if-then-else)"""
+    if z3.is_app(t) and t.decl().name() == 'pure_getExtension_2':
+        a = z3.simplify(t.arg(1))
+        ints = [x for x in apps([a], lambda e: z3.is_int_value(e))]
+        return set(x.as_long() for x in ints) or {None}
+    if z3.is_app(t) and t.decl().kind() == z3.Z3_OP_ITE:
+        return _ext_types_of(t.arg(1)) | _ext_types_of(t.arg(2))
+    return set()
+
+
 def make_deref_hooks(seen):
     def on_getattr(ex, v, name, st, fr, node):
+        if isinstance(node, ast.Attribute) and isinstance(node.ctx, ast.Load) and is_ext_value(v.t) \
+                and any((t, name) in NONE_FIELDS for t in _ext_types_of(v.t)):
+            use = _needs_a_list(fr, node)
+            if use:
+                # C08: the list field of an extension is None when the peer sent the extension with an empty body:
+                # iterating / searching / indexing it must be dominated by a test of the field (else TypeError)
+                fld = attr_t(name, v.t)
+                seen.append(src(node) + ':list')
+                ob(ex, st, 'C08:extension-list-field-not-None-where-%s:%s' % (use.split()[0], site(
+                    fr, node, lambda n: isinstance(n, ast.Attribute) and src(n) == src(node), src(node))),
+                    z3.Implies(v.t != v_none, z3.Or(fld != v_none, v_truthy(fld))), kind='m2')
         # C08: an extension looked up in the ClientHello may be absent (None): every attribute access on it must
         # be dominated by a test (else AttributeError on peer-controlled input)
         if isinstance(node, ast.Attribute) and isinstance(node.ctx, ast.Load) and is_ext_value(v.t) \
@@ -800,8 +915,27 @@ def _t4():
             else:
                 api.unreachable(o.st, 'C08:no-undocumented-exception:%s:%s' % (nm, o.val.origin))
         api.oblige(entry, 'cover:non-alert-exits-examined', k >= 1)
+        # exit facts the functions that receive this ClientHello rely on (contracts/m2_ext_none.py assumes them):
+        # list fields of the extensions are not None (the extension is absent or was sent with a body)
+        for j, (st, val) in enumerate(exits.full, 1):
+            ch = T(val.items[0])
+
+            def ext_of_(t_):
+                return GETEXT(attr_t('getExtension', ch), v_int(z3.IntVal(int(t_))))
+            ver = ext_of_(ExtensionType.supported_versions)
+            tls13 = z3.And(ver != v_none, V_IN(tup(3, 4), attr_t('versions', ver)))
+            for t_, fld, cond in EXIT_FACTS:
+                e_ = ext_of_(t_)
+                f_ = attr_t(fld, e_)
+                goal = z3.Or(e_ == v_none, f_ != v_none, v_truthy(f_))
+                api.oblige(st, 'C08:full-exit#%d:ClientHello-extension-%d.%s-is-not-None%s' % (j, t_, fld, '(TLS1.3-hello)' if cond else ''),
+                           z3.Implies(_ext_objects_truthy(st, e_), z3.Implies(tls13, goal) if cond else goal))
     return spec, check
 
+
+#: (extension type, list field, only for a hello that offers TLS 1.3 in supported_versions)
+EXIT_FACTS = [(43, 'versions', False), (51, 'client_shares', False), (9, 'certTypes', False), (11, 'formats', False),
+              (45, 'modes', True), (41, 'identities', True), (41, 'binders', True)]
 
 _spec4, _check4 = _t4()
 m2s('_serverGetClientHello/peer-controlled-dereferences', ('C08',), SGC, _spec4, check=_check4,
@@ -1077,8 +1211,9 @@ def _t6():
             api.oblige(st, 'C04:hrr:handshake-continues-with-the-second-ClientHello',
                        z3.Implies(hrr, T(val.items[0]) == ch2))
             # RFC 8446 4.1.2: the second ClientHello must be the first one except for the listed changes
+            # (the comparison is `clientHello1 != clientHello` on the edited first hello: its outcome is the ghost fact)
             api.oblige(st, 'C04:hrr:second-ClientHello-equals-the-(updated)-first-or-abort',
-                       z3.Implies(hrr, ch1 == ch2))
+                       z3.Implies(hrr, truthy(api.ghost(st, 'last_unknown_compare'))))
             # RFC 8446 4.2.2: the cookie must be echoed
             api.oblige(st, 'C04:hrr:cookie-echoed-unchanged', z3.Implies(hrr, truthy(api.ghost(st, 'cookie_echoed'))))
             # RFC 8446 4.2.8: exactly one share, for the group the server asked for
